@@ -52,6 +52,15 @@ Theorem C17_line_search_equiv :
     end.
 Proof. exact ls_static_eq. Qed.
 
+(* The exact sequence of trial step lengths (pure control flow): both line searches evaluate the energy at
+   x - s*dd for s = 1, 1/2, 1/4, 1/8, 1/16, 1/32 and then at x - s*rd (rd the reset direction) for s = 1, 1/2, 1/4,
+   stopping after the first point that does not raise the energy -- the compiled loop visits the same points. *)
+Theorem C17_trial_sequence :
+  forall n f hessp c pos g e dd,
+    ls_eager_trace n f hessp c 9 0 pos g e 1 dd = upto_first_ok n f pos e (trials n hessp c pos g dd) /\
+    ls_loop_trace n f hessp c 10 pos g e (ls_init pos g dd) = ls_eager_trace n f hessp c 9 0 pos g e 1 dd.
+Proof. intros. split; [apply ls_eager_trace_trials | apply ls_trace_eq]. Qed.
+
 (* Progress at negative curvature (with the C15 model as CG): at a point with non-zero gradient g and
    g.Hg < 0 the CG direction is t*g, t = g.g/|g.Hg| > 0, so the trial points are x - s*t*g; if one of
    the nine trials does not raise the energy the iteration moves to the first such point and continues
